@@ -22,6 +22,7 @@
 -/
 import BVM.Proofs.RtCount
 import BVM.Proofs.CfgOKb
+import BVM.Proofs.RtPosB
 namespace BVM
 
 theorem is_open_follows_open_close (cfg : Cfg) (d : DST) (ops : List Op) (bytes : Nat) (p : Plat) :
@@ -88,6 +89,21 @@ theorem is_empty_iff_at_content_start (cfg : Cfg) (d : DST) (L A : Nat) (hcfg : 
   simp only [Ctx.isEmpty, decide_eq_true_eq]
   omega
 
+/-- the same clauses for platforms that install buffers of different sizes (`barectf_packet_set_buf`), for histories
+    that start by opening a packet and never disable tracing (hypotheses of `no_store_outside_the_buffer_any_sizes`,
+    Props/C02.lean) — and there also the converse clause: **a closed packet is parked at its end** (`at = packet_size`),
+    so the is-full accessor is true and the next tracing call asks the back end and has a new packet opened -/
+theorem closed_packet_is_parked_at_the_end (cfg : Cfg) (d : DST) (A Lmax : Nat) (hcfg : CfgOK A cfg d)
+    (hsmall : 8 * Lmax + A ≤ 2 ^ 32) (L : Nat) (p : Plat) (hL : GoodBuf cfg d A Lmax p.openArgs L)
+    (htg : p.toggles = []) (hsb : ∀ x ∈ p.setBufs, GoodBuf cfg d A Lmax p.openArgs x.2)
+    (ops : List Op) (hops : OpsSmall d Lmax A ops) (hen : NeverDisabled ops)
+    (hc : (runOps cfg d (.open_ :: ops) (rtInit L p)).c.packetIsOpen = false) :
+    (runOps cfg d (.open_ :: ops) (rtInit L p)).c.isFull = true := by
+  have h := runOps_from_init cfg d A Lmax hcfg hsmall L p hL htg hsb ops hops hen
+  have h1 := h.cl rfl hc
+  simp only [Ctx.isFull, beq_iff_eq]
+  rw [h1, h.pkt]
+
 #print axioms is_open_follows_open_close
 #print axioms discarded_accessor_exact
 #print axioms sequence_accessor_exact
@@ -95,4 +111,5 @@ theorem is_empty_iff_at_content_start (cfg : Cfg) (d : DST) (L A : Nat) (hcfg : 
 #print axioms close_on_closed_is_noop
 #print axioms open_packet_position
 #print axioms is_empty_iff_at_content_start
+#print axioms closed_packet_is_parked_at_the_end
 end BVM
